@@ -1,6 +1,7 @@
 /-
   C04  Login-flow binding: state, PKCE and client auth tie the code to its session.
 -/
+import AuthProofs.StateInventory
 import AuthProofs.Ladder
 import AuthProofs.StoreSeq
 import AuthProofs.Finality
@@ -129,6 +130,9 @@ example : ∃ mEnd, Reach m0X trX mEnd := by
   | some m' => exact ⟨m', replay_sound _ _ _ hr⟩
 example : sessionIdFromCookie cfgX cbX.cookie = B "s" := by decide
 
+/-- NO HIDDEN STATE: the model treats a check as a function of (configuration, request, store answers, clock, IdP and key-source answers, entropy); that is a faithful reading of the code only if nothing else survives from one check to the next. Regenerated on every run: every package-level variable and struct field of internal/server, internal/authz, internal/http, internal/oidc is the classified expectation, and handlers, filter, HTTP helpers and the Redis store own no mutable state (no verdict cache, handler cache, object pool, single-flight group or per-process copy of session data). -/
+theorem no_hidden_state : CheckPathInventory := check_path_inventory
+
 end AuthProps.C04
 
 #print axioms AuthProps.C04.exchange_requires_state
@@ -138,3 +142,4 @@ end AuthProps.C04
 #print axioms AuthProps.C04.callback_without_state_no_exchange
 #print axioms AuthProps.C04.query_robust
 #print axioms AuthProps.C04.consumed_state_no_later_exchange
+#print axioms AuthProps.C04.no_hidden_state
